@@ -131,6 +131,16 @@ def deliver {B R : Type} (conv : B → Conv (WireList R)) (eqv : Option (WireLis
   let (h, m, o) := handle conv eqv (loadUpd mo) s.1 s.2 src
   ((h, m), o)
 
+/-- `datasource.Base.Handle` (`ext/datasource/datasource.go`): every registered handler gets the payload, in registration
+    order; the handlers' errors are collected (`multierr.Append`) and one `HandleSourceError` is returned iff at least one
+    handler failed.  `Base` has **no state of its own** besides the handler list: in particular it does not remember,
+    compare or keep the payload (a datasource may hand it the same reused buffer every time). -/
+def baseDeliver {B R : Type} (conv : B → Conv (WireList R)) (eqv : Option (WireList R) → Option (WireList R) → Bool)
+    (mo : Module R) (ss : List (Handler (WireList R) × Mgr R)) (src : B) :
+    List (Handler (WireList R) × Mgr R) × Outcome Ret :=
+  let rs := ss.map fun s => deliver conv eqv mo s src
+  (rs.map (·.1), if rs.any (fun r => r.2 == Outcome.ret Ret.err) then .ret .err else .ret .nil)
+
 /-! ## Refreshable file datasource (abstract) -/
 
 /-- what happens to the watched path / what the watcher goroutine does -/
